@@ -28,6 +28,40 @@ class Ob:
                 "config": self.cfg, "values": self.values}
 
 
+_SEEKPOS = ("std::io::Seek::stream_position", "futures_util::io::AsyncSeekExt::stream_position", "std::io::Seek::seek", "futures_util::io::AsyncSeekExt::seek")
+
+
+def spill_role_fns(facts):
+    """the root-directory writers: local functions that take a seekable stream, return the leaf-section bytes (`Result<Vec<u8>>`) and — themselves
+    or through private helpers that are not root writers of their own — write a Directory to the stream and observe/seek its position"""
+    fns = {f["path"]: f for f in facts.user_fns()}
+    def shape(f):
+        return "Result<alloc::vec::Vec<u8>," in f["ret"] and any(absint_streamlike(p.get("ty") or "") for p in f["params"])
+    def matches(names):
+        return any(n.startswith("directory::Directory::to_") and "writer" in n for n in names) and any(n in _SEEKPOS for n in names)
+    direct = {p: [c["fn"] for c in calls(f["body"])] for p, f in fns.items()}
+    M = set(p for p, f in fns.items() if shape(f) and matches(direct[p]))
+    changed = True
+    while changed:
+        changed = False
+        for p, f in fns.items():
+            if p in M or not shape(f):
+                continue
+            seen, work, names = set(), [p], []
+            while work:
+                q = work.pop()
+                for n in direct.get(q, ()):
+                    names.append(n)
+                    g = fns.get(n)
+                    if g is not None and n not in seen and n not in M and g["vis"] != "pub" and n != p:
+                        seen.add(n)
+                        work.append(n)
+            if matches(names):
+                M.add(p)
+                changed = True
+    return [fns[p] for p in sorted(M)]
+
+
 class Ctx:
     """facts of one feature config + memoised analyses + role locators"""
 
@@ -110,6 +144,7 @@ class Ctx:
         """syntactic approximations of the role locators used by the rules (kept here so that the inline policy exists before any analysis runs)"""
         facts = self.facts
         out = set()
+        spill = set(f["path"] for f in spill_role_fns(facts))
         HM = "std::collections::hash::map::HashMap::<K, V, S, A>::"
         for f in facts.user_fns():
             cs = [c for c in calls(f["body"])]
@@ -128,7 +163,7 @@ class Ctx:
                 out.add(f["path"])
             if any(n.startswith("integer_encoding::") for n in names):
                 out.add(f["path"])
-            if ("Vec<u8>" in f["ret"]) and any(n.startswith("directory::Directory::to_") and "writer" in n for n in names) and any(absint_streamlike(p.get("ty") or "") for p in f["params"]):
+            if f["path"] in spill:
                 out.add(f["path"])
             if has("tile_manager::FinishResult"):
                 out.add(f["path"])
